@@ -1,29 +1,96 @@
 """C07 — default reference resolution finds the unique matching object.
 
-Implementation side: a generated grammar with 2..5 leaf classes (name required /
-optional / no name attribute), 0..3 abstract targets built from simple
-alternatives (`A0: L0 | L1;`, nested), the all-embracing `Elem` and `OBJECT`
-targets, and reference rules with a single-valued (`one=[T]`) and a list
-(`many+=[T][',']`) attribute per target.  A generated model tree (nested named
-objects with names from a small pool, so that names collide inside and across
-classes), a builtins dictionary (instances of metamodel classes and a foreign
-Python object) and 1..5 references are loaded through
-`metamodel_from_str(...).model_from_str(...)` with the default scope provider.
+Implementation side: a generated grammar with 2..5 leaf classes whose `name` comes
+from ID (required / optional), STRING, a user match rule (`Dotted: ID('.'ID)*;`),
+the case's numeric rule (INT | FLOAT | BOOL | NUMBER) or is absent, 0..3 abstract
+targets built from simple alternatives (`A0: L0 | L1;`, nested), the all-embracing
+`Elem` and `OBJECT` targets, and reference rules with a single-valued
+(`one=[T]`, `one=[T|STRING]`, `one=[T|INT]` …) and a list (`many+=[T|Rule][',']`)
+attribute per target and match rule.  A generated model tree (nested named
+objects with names from small pools per kind, so that names collide inside and
+across classes and kinds; the pools contain the falsy values `""`, `0`, `0.0`,
+`false`), a builtins dictionary (keys of any kind; instances of metamodel classes
+whose own name may differ from the key, and a foreign Python object) and 1..5
+references are loaded through `metamodel_from_str(...).model_from_str(...)`
+with the default scope provider — optionally with `textx_tools_support`, with
+user classes whose instances are falsy (`__len__` == 0), and after another model
+(same shape, other names) was loaded with the same metamodel.
 Observed: the resolved attribute values as object identities (pre-order number
 of the object in the loaded model, or which builtins entry) or the
 TextXSemanticError (err_type, 'not unique', line/col → which reference).  After
 a successful load the PlainName provider is also called directly for every
-(name, target) pair over the names present.
+(name, target) pair over the names present (falsy ones first).
 
 Lean side: `Link.resolveAll` / `Link.plainName` (Drivers/Link.lean, op
 resolve_default) on the same tree, conformance table (computed from the
 grammar's declared alternatives, not from textx_isinstance), builtins and
-references.
+references; name values are sent as `nkey(value)` (injective modulo Python `==`).
 """
 from harness.core import Check, use_repo
 
+import re
+
 POOL = ["a", "b", "c", "d", "e"]
 EXTRA = ["int", "str"]
+# name kinds: which match rule produces the object's name / the reference's text
+#   id  : ID (the default of `[T]`)        str : STRING (`[T|STRING]`)
+#   dot : a user match rule `Dotted: ID('.'ID)*;`
+#   num : the case's numeric rule (INT | FLOAT | BOOL | NUMBER) — one per case, because Python
+#         compares numbers across types (0 == 0.0 == False) and the statement does not say
+#         whether 'pin 0' names the object a FLOAT-typed reference '0.0' asks for
+STR_SPECIAL = ["", "a b", " a", "a.b"]
+DOT_SPECIAL = ["a.b", "b.c", "a.b.c"]
+NUM_RULE = {"int": "INT", "float": "FLOAT", "bool": "BOOL", "number": "NUMBER"}
+NUM_POOL = {"int": [0, 1, 2, -1], "float": [0.0, 1.5, 2.0], "bool": [False, True], "number": [0, 1, 0.5]}
+NUM_MISSING = {"int": 9, "float": 9.5, "number": 9}
+KLET = {"id": "", "str": "s", "dot": "d", "num": "n"}
+LEAF_KIND = {"req": "id", "opt": "id", "none": None, "str": "str", "dot": "dot", "num": "num"}
+_ID = r"[^\d\W]\w*"
+
+
+def nkey(v):
+    """Name values as the Lean model sees them: an injective-modulo-Python-equality encoding
+    (`x.name == obj_name` holds iff the keys are equal): strings by their text, numbers
+    (int / float / bool) by their numeric value.  None = no name attribute."""
+    if v is None:
+        return None
+    if isinstance(v, str):
+        return "s:" + v
+    if isinstance(v, (bool, int)):
+        return "n:%d" % int(v)
+    if isinstance(v, float):
+        return "n:%d" % int(v) if v == int(v) else "n:" + repr(v)
+    raise ValueError(v)
+
+
+def expressible(case, kind, v):
+    """can a token of the kind's match rule produce the value v?"""
+    if kind == "id":
+        return isinstance(v, str) and re.fullmatch(_ID, v) is not None
+    if kind == "dot":
+        return isinstance(v, str) and re.fullmatch(_ID + r"(\." + _ID + ")*", v) is not None
+    if kind == "str":
+        return isinstance(v, str) and not any(ch in v for ch in "\"'\\\n")
+    nk = case.get("numkind", "int")
+    if nk == "number":
+        return type(v) in (int, float)
+    return type(v) is {"int": int, "float": float, "bool": bool}[nk]
+
+
+def tok(kind, v):
+    if kind == "str":
+        return '"' + v + '"'
+    if kind == "num":
+        return ("true" if v else "false") if isinstance(v, bool) else repr(v)
+    return v
+
+
+def ref_kind(node):
+    return node.get("k", "id")
+
+
+def ref_rule(node):
+    return ("RS" if "one" in node else "RM") + KLET[ref_kind(node)] + "_" + node["t"]
 CLS_R, CLS_ELEM, CLS_MODEL, CLS_FOREIGN, CLS_OBJECT = 60, 90, 91, 98, 99
 
 
@@ -67,21 +134,30 @@ def targets_of(case):
 def grammar_of(case):
     n = len(case["leaves"])
     tg = targets_of(case)
+    numrule = NUM_RULE[case.get("numkind", "int")]
+    mrule = {"id": "", "str": "|STRING", "dot": "|Dotted", "num": "|" + numrule}
     lines = ["Model: elems*=Elem;"]
-    used = {(("RS_" if "one" in o["node"] else "RM_") + o["node"]["t"]) for o in number(case)[0][1:] if o["cls"] == "R"}
-    rrules = [r for t in tg for r in (f"RS_{t}", f"RM_{t}") if r in used]
-    alts = [f"L{k}" for k in range(n)] + rrules
+    used = {ref_rule(o["node"]) for o in number(case)[0][1:] if o["cls"] == "R"}
+    rrules = [(t, k, m) for t in tg for k in ("id", "str", "dot", "num") for m in ("RS", "RM")
+              if f"{m}{KLET[k]}_{t}" in used]
+    alts = [f"L{k}" for k in range(n)] + [f"{m}{KLET[k]}_{t}" for t, k, m in rrules]
     lines.append("Elem: " + " | ".join(alts) + ";")
     for j, a in enumerate(case["abstracts"]):
         lines.append(f"A{j}: " + " | ".join(a) + ";")
+    dotted = any(k == "dot" for _, k, _ in rrules)
     for k, mode in enumerate(case["leaves"]):
-        head = {"req": "name=ID", "opt": "('named' name=ID)?", "none": "v=INT"}[mode]
+        head = {"req": "name=ID", "opt": "('named' name=ID)?", "none": "v=INT", "str": "name=STRING",
+                "dot": "name=Dotted", "num": "name=" + numrule}[mode]
+        dotted = dotted or mode == "dot"
         lines.append(f"L{k}: 'l{k}' {head} ('{{' kids*=Elem '}}')?;")
-    for t in tg:
-        if f"RS_{t}" in used:
-            lines.append(f"RS_{t}: 'rs_{t}' one=[{t}];")
-        if f"RM_{t}" in used:
-            lines.append(f"RM_{t}: 'rm_{t}' many+=[{t}][','];")
+    for t, k, m in rrules:
+        kw = f"{m.lower()}{KLET[k]}_{t}"
+        if m == "RS":
+            lines.append(f"RS{KLET[k]}_{t}: '{kw}' one=[{t}{mrule[k]}];")
+        else:
+            lines.append(f"RM{KLET[k]}_{t}: '{kw}' many+=[{t}{mrule[k]}][','];")
+    if dotted:
+        lines.append("Dotted: ID('.'ID)*;")
     return "\n".join(lines) + "\n"
 
 
@@ -132,14 +208,14 @@ def render(case):
             k = node["c"]
             mode = case["leaves"][k]
             emit(f"l{k}")
-            if mode == "req":
-                emit(node["name"])
-            elif mode == "opt":
+            if mode == "opt":
                 if node.get("name") is not None:
                     emit("named")
                     emit(node["name"])
-            else:
+            elif mode == "none":
                 emit("7")
+            else:
+                emit(tok(LEAF_KIND[mode], node["name"]))
             kids = node.get("kids", [])
             if kids:
                 emit("{")
@@ -147,16 +223,16 @@ def render(case):
                     go(c, False)
                 emit("}")
         elif "one" in node:
-            emit(f"rs_{node['t']}")
+            emit(f"rs{KLET[ref_kind(node)]}_{node['t']}")
             pos.append([line[0], col[0]])
-            emit(node["one"])
+            emit(tok(ref_kind(node), node["one"]))
         else:
-            emit(f"rm_{node['t']}")
+            emit(f"rm{KLET[ref_kind(node)]}_{node['t']}")
             for j, nm in enumerate(node["many"]):
                 if j:
                     emit(",")
                 pos.append([line[0], col[0]])
-                emit(nm)
+                emit(tok(ref_kind(node), nm))
         if top:
             emit("", newline=True)
 
@@ -177,7 +253,7 @@ def lean_obj(case):
             if mode == "opt" and nm is None:
                 nm = ""  # textX initialises an unmatched optional ID attribute with ''
             attrs = [{"p": 0}, {"c": [go(k) for k in node.get("kids", [])]}]
-            return {"id": o["id"], "cls": cls_num(o["cls"]), "name": nm if mode != "none" else None, "attrs": attrs}
+            return {"id": o["id"], "cls": cls_num(o["cls"]), "name": nkey(nm) if mode != "none" else None, "attrs": attrs}
         return {"id": o["id"], "cls": CLS_R, "name": None, "attrs": [{"r": []}]}
 
     return {"id": 0, "cls": CLS_MODEL, "name": None, "attrs": [{"c": [go(n) for n in case["tree"]]}]}
@@ -186,17 +262,49 @@ def lean_obj(case):
 # ---------------------------------------------------------------------------
 # the statement, decided directly
 # ---------------------------------------------------------------------------
+def matches(case, objs, name, t):
+    """ids of the objects of the model named `name` (compared as values, the way the names were
+    produced by their match rules — falsy values like 0 or "" are names like any other) whose
+    class conforms to t"""
+    k = nkey(name)
+    return [o["id"] for o in objs if o["name"] is not None and nkey(o["name"]) == k and conforms(case, o["cls"], t)]
+
+
 def spec_verdict(case, objs, name, t):
-    """('obj', id) | ('builtin', name) | ('unknown',) | ('notUnique',)"""
-    m = [o["id"] for o in objs if o["name"] is not None and o["name"] == name and conforms(case, o["cls"], t)]
+    """('obj', id) | ('builtin', index of the builtins entry) | ('unknown',) | ('notUnique',)"""
+    m = matches(case, objs, name, t)
     if len(m) == 1:
         return ("obj", m[0])
     if len(m) > 1:
         return ("notUnique",)
-    b = dict((k, v) for k, v in case["builtins"])
-    if name in b and conforms(case, b[name], t):
-        return ("builtin", name)
+    k = nkey(name)
+    for i, b in enumerate(case["builtins"]):
+        if nkey(b[0]) == k:  # the dictionary *key* counts, not the name attribute of the stored object
+            return ("builtin", i) if conforms(case, b[1], t) else ("unknown",)
     return ("unknown",)
+
+
+def prior_case(case):
+    """the model loaded *before* the case's model with the same metamodel: same shape, every
+    object name replaced by the next one of its pool (so the sets of names differ)"""
+    import copy
+
+    c = copy.deepcopy(case)
+    r = case.get("prior") or 0
+    pools = case.get("pools") or {}
+
+    def go(node):
+        if "c" in node:
+            pool = pools.get(LEAF_KIND[case["leaves"][node["c"]]] or "", [])
+            ks = [nkey(x) for x in pool]
+            if node.get("name") is not None and nkey(node["name"]) in ks:
+                node["name"] = pool[(ks.index(nkey(node["name"])) + r) % len(pool)]
+            for k in node.get("kids", []):
+                go(k)
+
+    for nd in c["tree"]:
+        go(nd)
+    return c
 
 
 def spec_objs(case):
@@ -221,19 +329,24 @@ class Prop(Check):
     DRIVER = "Drivers/Link.lean"
     QUICK_CASES = 800
     THOROUGH_CASES = 40000
-    RULE = ("generated grammar (2..5 leaf classes with required / optional / no name attribute, 0..3 nested abstract "
-            "targets from simple alternatives, Elem and OBJECT targets) x model tree of 2..12 objects named from a pool of "
-            "3..5 names x builtins dict (0..3 entries: metamodel-class instances, foreign object; generated or user "
-            "classes) x 1..5 references in single and list attributes (unique / dangling / ambiguous / builtins); "
+    RULE = ("generated grammar (2..5 leaf classes whose name is ID required / ID optional / absent / STRING / a user match "
+            "rule / the case's numeric rule INT|FLOAT|BOOL|NUMBER, 0..3 nested abstract targets from simple alternatives, "
+            "Elem and OBJECT targets) x model tree of 2..12 objects named from per-kind pools of 2..6 values that share "
+            "names across kinds and contain the falsy values '' / 0 / 0.0 / false x builtins dict (0..3 entries, keys of "
+            "any kind: metamodel-class instances whose own name may differ from the key, foreign object; generated or "
+            "user classes, user instances optionally falsy) x 1..5 references in single and list attributes with the "
+            "match rule of any kind (unique / dangling / ambiguous / builtins) x textx_tools_support on/off x another "
+            "model loaded before with the same metamodel or not; "
             "non-trivial = some reference's name is carried by >= 2 objects (model or builtins) or by none, so that "
             "type conformance, uniqueness or the builtins fallback decides the outcome")
     MODELLED = ("hand-modelled: model.py get_children (Link.follow/getChildren), scoping/providers.py PlainName.__call__ "
                 "multi_metamodel_support branch (Link.plainName), model.py resolve_one_step builtins fallback / Unknown "
                 "object / single pass over parser._crossrefs (Link.resolveRef/resolveAll); conformance "
                 "(textx_isinstance) is a parameter of the model, instantiated with the grammar's declared alternatives; "
+                "name values (str / int / float / bool) are encoded as strings injectively modulo Python equality; "
                 "tie X: resolved targets by object identity, failing reference and error kind, direct provider calls; "
-                "not exhibited: user __eq__/__bool__ overrides, names of unhashable or non-string type, "
-                "multi_metamodel_support=False")
+                "not exhibited: user __eq__ overrides, names of unhashable type, mixed numeric name types in one "
+                "model (0 == 0.0 == False), multi_metamodel_support=False")
     ASSUMPTIONS = [
         "each model object is contained once (containment is a tree of distinct Python objects) — what the parser builds",
         "conformance of classes is the reflexive-transitive closure of the abstract rules' alternatives (C03 covers textx_isinstance/_tx_inh_by)",
@@ -242,7 +355,9 @@ class Prop(Check):
     # ------------------------------------------------------------------ gen
     def gen_case(self, rng):
         nleaf = rng.randint(2, 5)
-        leaves = [rng.weighted([("req", 6), ("opt", 2), ("none", 1)]) for _ in range(nleaf)]
+        # name of a leaf class: ID (required / optional), none, STRING, a user match rule, the numeric rule
+        leaves = [rng.weighted([("req", 6), ("opt", 2), ("none", 1), ("str", 2), ("dot", 1), ("num", 3)])
+                  for _ in range(nleaf)]
         if all(m == "none" for m in leaves):
             leaves[0] = "req"
         abstracts = []
@@ -250,16 +365,44 @@ class Prop(Check):
             cand = [f"L{k}" for k in range(nleaf)] + [f"A{i}" for i in range(j)]
             alts = rng.sample(cand, rng.randint(2, min(3, len(cand))))
             abstracts.append(alts)
-        case = {"leaves": leaves, "abstracts": abstracts, "builtins": [], "user": rng.chance(0.3), "tree": []}
-        pool = POOL[: rng.randint(2, 5)]
-        # builtins
+        numkind = rng.weighted([("int", 5), ("float", 1), ("bool", 1), ("number", 1)])
+        case = {"leaves": leaves, "abstracts": abstracts, "numkind": numkind, "builtins": [],
+                "user": rng.chance(0.3), "tree": []}
+        # metamodel configuration and history: none of them may change what a reference resolves to
+        case["tools"] = rng.chance(0.25)                       # textx_tools_support=True
+        case["falsy"] = case["user"] and rng.chance(0.4)       # user classes whose instances are falsy
+        case["prior"] = rng.randint(1, 2) if rng.chance(0.3) else 0  # another model loaded before
+        # name pools per kind; the string kinds share names (ID a == STRING "a" == Dotted a), every pool
+        # of a kind with a falsy value ("" / 0 / 0.0 / false) usually contains it
+        pid = POOL[: rng.randint(2, 5)] + (["A"] if rng.chance(0.25) else [])
+        pstr = pid[: rng.randint(1, 2)] + ([""] if rng.chance(0.7) else []) \
+            + rng.sample(STR_SPECIAL[1:], rng.randint(0, 2))
+        pdot = pid[: rng.randint(1, 2)] + DOT_SPECIAL[: rng.randint(1, 3)]
+        pnum = list(NUM_POOL[numkind][: rng.weighted([(2, 3), (3, 2), (4, 1)])])
+        if rng.chance(0.15) and len(pnum) > 2:
+            del pnum[0]
+        pools = {"id": pid, "str": pstr, "dot": pdot, "num": pnum}
+        case["pools"] = pools
+        kinds = ["id", "str"] + [k for k in ("dot", "num") if k in leaves]
+        values = []
+        for k in kinds:
+            for v in pools[k]:
+                if nkey(v) not in [nkey(x) for x in values]:
+                    values.append(v)
+        # an unmatched optional `name=ID` is '' in textX; whether that makes the object the target of a
+        # STRING reference "" is not decided by the statement: unnamed objects only when "" is not in use
+        allow_unnamed = "" not in values
+        # builtins: key from the pools (any kind) or extra; the stored object's own name may differ
         for _ in range(rng.weighted([(0, 3), (1, 3), (2, 2), (3, 1)])):
-            nm = rng.choice(pool + EXTRA)
-            if nm in [b[0] for b in case["builtins"]]:
+            nm = rng.choice(values + EXTRA)
+            if nkey(nm) in [nkey(b[0]) for b in case["builtins"]]:
                 continue
             named = [f"L{k}" for k in range(nleaf) if leaves[k] != "none"]
             kind = rng.weighted([("leaf", 4), ("foreign", 1)])
-            case["builtins"].append([nm, rng.choice(named) if kind == "leaf" else "foreign"])
+            entry = [nm, rng.choice(named) if kind == "leaf" else "foreign"]
+            if rng.chance(0.2):
+                entry.append(rng.choice(values))
+            case["builtins"].append(entry)
         # tree of named objects
         budget = [rng.randint(2, 10)]
 
@@ -267,8 +410,11 @@ class Prop(Check):
             k = rng.below(nleaf)
             node = {"c": k}
             mode = leaves[k]
-            if mode == "req" or (mode == "opt" and rng.chance(0.7)):
-                node["name"] = rng.choice(pool)
+            if mode == "opt":
+                if not allow_unnamed or rng.chance(0.7):
+                    node["name"] = rng.choice(pid)
+            elif mode != "none":
+                node["name"] = rng.choice(pools[LEAF_KIND[mode]])
             kids = []
             while depth < 3 and budget[0] > 0 and rng.chance(0.45):
                 budget[0] -= 1
@@ -281,40 +427,53 @@ class Prop(Check):
             budget[0] -= 1
             tree.append(mk(0))
         case["tree"] = tree
-        # references
+        # references: (name value, kind of the reference's match rule, target), by verdict category
         objs, _ = number(case)
         tg = targets_of(case)
-        names = pool + [b[0] for b in case["builtins"] if b[0] not in pool]
+        names = values + [b[0] for b in case["builtins"] if nkey(b[0]) not in [nkey(x) for x in values]]
+        names += ["zz"] + ([NUM_MISSING[numkind]] if "num" in kinds and numkind in NUM_MISSING else [])
         cat = {"obj": [], "notUnique": [], "unknown": [], "builtin": []}
-        for nm in names + ["zz"]:
-            for t in tg:
-                cat[spec_verdict(case, objs, nm, t)[0]].append((nm, t))
+        falsy = []
+        for nm in names:
+            for k in kinds:
+                if expressible(case, k, nm):
+                    for t in tg:
+                        cat[spec_verdict(case, objs, nm, t)[0]].append((nm, k, t))
+                        if not nm:
+                            falsy.append((nm, k, t))
         fail_case = rng.chance(0.4)
         refnodes = []
         for _ in range(rng.randint(1, 4)):
             many = rng.chance(0.4)
-            k = rng.randint(1, 3) if many else 1
+            n = rng.randint(1, 3) if many else 1
             picks = []
-            for _ in range(k):
+            for _ in range(n):
                 if fail_case and rng.chance(0.35):
                     kind = rng.weighted([("unknown", 3), ("notUnique", 3)])
                 else:
                     kind = rng.weighted([("obj", 8), ("builtin", 3)])
                 if not cat[kind]:
                     kind = "obj" if cat["obj"] else rng.choice([c for c in cat if cat[c]])
-                picks.append(rng.choice(cat[kind]))
-            t = picks[0][1]
+                cands = cat[kind]
+                if falsy and rng.chance(0.3):  # prefer the falsy names of that category
+                    cands = [p for p in cands if not p[0]] or cands
+                picks.append(rng.choice(cands))
+            _, k, t = picks[0]
             if many:
-                # all items of one list share the target class: re-pick names for that target keeping the verdict kind if possible
+                # all items of one list share target class and match rule: re-pick names for them keeping the
+                # verdict kind if possible
                 items = []
-                for (nm, tt) in picks:
-                    if tt != t:
-                        same = [p for p in cat[spec_verdict(case, objs, nm, tt)[0]] if p[1] == t]
-                        nm = rng.choice(same)[0] if same else nm
+                for (nm, kk, tt) in picks:
+                    if (kk, tt) != (k, t):
+                        same = [p for p in cat[spec_verdict(case, objs, nm, tt)[0]] if (p[1], p[2]) == (k, t)]
+                        if same:
+                            nm = rng.choice(same)[0]
+                        elif not expressible(case, k, nm):
+                            nm = picks[0][0]
                     items.append(nm)
-                refnodes.append({"many": items, "t": t})
+                refnodes.append({"many": items, "t": t, "k": k})
             else:
-                refnodes.append({"one": picks[0][0], "t": t})
+                refnodes.append({"one": picks[0][0], "t": t, "k": k})
         # place the reference objects at random places of the tree
         for rn in refnodes:
             holders = [None] + [o["node"] for o in objs[1:] if o["node"] is not None and "c" in o["node"]]
@@ -340,37 +499,63 @@ class Prop(Check):
         objs, refs = number(case)
         nleaf = len(case["leaves"])
 
+        falsy = bool(case.get("falsy"))
+
         class Foreign:
             def __init__(self, name):
                 self.name = name
 
+            def __bool__(self):
+                return not falsy
+
+        kw = {"textx_tools_support": True} if case.get("tools") else {}
         try:
             if case.get("user"):
                 def mkcls(nm):
                     def __init__(self, **kw):
                         for k, v in kw.items():
                             setattr(self, k, v)
-                    return type(nm, (object,), {"__init__": __init__})
+                    d = {"__init__": __init__}
+                    if falsy:  # e.g. a container class with __len__: an instance is falsy, not None
+                        d["__len__"] = lambda self: 0
+                    return type(nm, (object,), d)
 
                 ucls = {f"L{k}": mkcls(f"L{k}") for k in range(nleaf)}
-                builtins = {}
-                for nm, kind in case["builtins"]:
-                    builtins[nm] = Foreign(nm) if kind == "foreign" else ucls[kind](parent=None, name=nm, kids=[])
-                mm = metamodel_from_str(grammar, classes=list(ucls.values()), builtins=builtins)
+                blist = []
+                for b in case["builtins"]:
+                    nm, kind = b[0], b[1]
+                    own = b[2] if len(b) > 2 else nm
+                    blist.append((nm, Foreign(own) if kind == "foreign" else ucls[kind](parent=None, name=own, kids=[])))
+                builtins = dict(blist)
+                mm = metamodel_from_str(grammar, classes=list(ucls.values()), builtins=builtins, **kw)
             else:
-                mm = metamodel_from_str(grammar)
-                builtins = {}
-                for nm, kind in case["builtins"]:
+                mm = metamodel_from_str(grammar, **kw)
+                blist = []
+                for b in case["builtins"]:
+                    nm, kind = b[0], b[1]
+                    own = b[2] if len(b) > 2 else nm
                     if kind == "foreign":
-                        builtins[nm] = Foreign(nm)
+                        blist.append((nm, Foreign(own)))
                     else:
                         c = mm[kind]
-                        b = c.__new__(c)
-                        b.name = nm
-                        builtins[nm] = b
+                        o = c.__new__(c)
+                        o.name = own
+                        blist.append((nm, o))
+                builtins = dict(blist)
                 mm.builtins = builtins
         except Exception as e:
             return {"outcome": "grammar-error", "type": type(e).__name__, "msg": str(e)[:300]}
+
+        prior = None
+        if case.get("prior"):
+            # history: another model (same shape, other names) was loaded with this metamodel before
+            try:
+                mm.model_from_str(render(prior_case(case))[0])
+                prior = "ok"
+            except TextXError as e:
+                prior = type(e).__name__
+            except Exception as e:
+                return {"outcome": "error", "kind": "other:prior:" + type(e).__name__, "idx": -1, "msg": str(e)[:200]}
 
         try:
             model = mm.model_from_str(text)
@@ -384,7 +569,7 @@ class Prop(Check):
                 kind = "other-semantic"
             idx = pos.index([e.line, e.col]) if [e.line, e.col] in pos else -1
             return {"outcome": "error", "kind": kind, "idx": idx, "err_type": e.err_type, "line": e.line, "col": e.col,
-                    "msg": msg[:200]}
+                    "msg": msg[:200], "prior": prior}
         except TextXError as e:
             return {"outcome": "error", "kind": "other:" + type(e).__name__, "idx": -1, "msg": str(e)[:200]}
         except Exception as e:
@@ -404,12 +589,17 @@ class Prop(Check):
 
         walk(model)
         shape = [type(o).__name__ for o in order]
-        want = ["Model"] + [o["cls"] if o["cls"] != "R" else ("RS_" if "one" in o["node"] else "RM_") + o["node"]["t"]
-                            for o in objs[1:]]
+        want = ["Model"] + [o["cls"] if o["cls"] != "R" else ref_rule(o["node"]) for o in objs[1:]]
         if shape != want:
             return {"outcome": "shape-mismatch", "got": shape, "want": want}
+        # the names the loaded objects carry are the generated values (type included)
+        for i, o in enumerate(order):
+            if objs[i]["name"] is not None:
+                got = getattr(o, "name", None)
+                if type(got) is not type(objs[i]["name"]) or got != objs[i]["name"]:
+                    return {"outcome": "shape-mismatch", "got": [i, repr(got)], "want": [i, repr(objs[i]["name"])]}
         num = {id(o): i for i, o in enumerate(order)}
-        bid = {id(v): k for k, v in builtins.items()}
+        bid = {id(v): i for i, (_, v) in enumerate(blist)}
 
         def ident(x):
             if id(x) in num:
@@ -438,11 +628,16 @@ class Prop(Check):
                 probes.append("many" if "not unique" in str(e) else "error:" + str(e)[:80])
             except Exception as e:
                 probes.append("exc:" + type(e).__name__)
-        return {"outcome": "ok", "attrs": attrs, "probes": probes}
+        return {"outcome": "ok", "attrs": attrs, "probes": probes, "prior": prior}
 
     def probe_list(self, case):
+        """(name value, target) pairs for the direct provider calls: every name present — the falsy ones
+        first, they are names like any other — and an absent one"""
         objs, _ = number(case)
-        names = sorted({o["name"] for o in objs if o["name"]} | {b[0] for b in case["builtins"]})[:6] + ["zz"]
+        byk = {}
+        for v in [o["name"] for o in objs if o["name"] is not None] + [b[0] for b in case["builtins"]]:
+            byk.setdefault(nkey(v), v)
+        names = [byk[k] for k in sorted(byk, key=lambda k: (bool(byk[k]), k))][:6] + ["zz"]
         return [(nm, t) for nm in names for t in targets_of(case)]
 
     # ---------------------------------------------------------------- model
@@ -457,19 +652,17 @@ class Prop(Check):
             "op": "resolve_default",
             "root": lean_obj(case),
             "conf": conf,
-            "builtins": [[nm, 1000 + i, cls_num(kind)] for i, (nm, kind) in enumerate(case["builtins"])],
-            "refs": [[r["name"], cls_num(r["t"]), r["owner"], 0] for r in refs],
-            "probes": [[nm, cls_num(t)] for nm, t in self.probe_list(case)] if obs["outcome"] == "ok" else [],
+            "builtins": [[nkey(b[0]), 1000 + i, cls_num(b[1])] for i, b in enumerate(case["builtins"])],
+            "refs": [[nkey(r["name"]), cls_num(r["t"]), r["owner"], 0] for r in refs],
+            "probes": [[nkey(nm), cls_num(t)] for nm, t in self.probe_list(case)] if obs["outcome"] == "ok" else [],
         }
 
     def compare(self, case, obs, out):
         if "err" in out:
             return f"model rejected the request: {out}"
         res = out["res"]
-        bname = {1000 + i: nm for i, (nm, _) in enumerate(case["builtins"])}
-
         def tj(t):
-            return {"obj": t["obj"]} if "obj" in t else {"builtin": bname[t["builtin"]]}
+            return {"obj": t["obj"]} if "obj" in t else {"builtin": t["builtin"] - 1000}
 
         if obs["outcome"] == "error":
             if "fail" not in res:
@@ -527,10 +720,10 @@ class Prop(Check):
             o = bad[0] if bad else None
             return f"reference attribute of object #{o}: resolved to {got.get(o)} instead of {want.get(o)}"
         for (nm, t), p in zip(self.probe_list(case), obs["probes"]):
-            m = [o["id"] for o in objs if o["name"] is not None and o["name"] == nm and conforms(case, o["cls"], t)]
+            m = matches(case, objs, nm, t)
             exp = {"obj": m[0]} if len(m) == 1 else ("many" if m else None)
             if p != exp:
-                return f"PlainName provider called for '{nm}' -> {t}: {p} instead of {exp}"
+                return f"PlainName provider called for {nm!r} -> {t}: {p} instead of {exp}"
         return None
 
     def nontrivial(self, case, obs):
@@ -538,7 +731,8 @@ class Prop(Check):
         if obs["outcome"] not in ("ok", "error"):
             return False
         for r in refs:
-            carriers = sum(1 for o in objs if o["name"] == r["name"]) + sum(1 for b in case["builtins"] if b[0] == r["name"])
+            k = nkey(r["name"])
+            carriers = sum(1 for o in objs if nkey(o["name"]) == k) + sum(1 for b in case["builtins"] if nkey(b[0]) == k)
             if carriers != 1:
                 return True
         return False
@@ -575,14 +769,24 @@ class Prop(Check):
             c = copy.deepcopy(case)
             del c["builtins"][i]
             yield c
-        if case.get("user"):
-            c = copy.deepcopy(case)
-            c["user"] = False
-            yield c
+        for flag in ("prior", "tools", "falsy", "user"):
+            if case.get(flag):
+                c = copy.deepcopy(case)
+                c[flag] = 0 if flag == "prior" else False
+                if flag == "user":
+                    c["falsy"] = False
+                yield c
+        for i, b in enumerate(case["builtins"]):
+            if len(b) > 2:
+                c = copy.deepcopy(case)
+                del c["builtins"][i][2]
+                yield c
 
     def sample_view(self, case, obs):
         return {"grammar": grammar_of(case), "text": render(case)[0], "builtins": case["builtins"],
-                "user_classes": case.get("user", False), "impl": obs}
+                "user_classes": case.get("user", False), "falsy_instances": case.get("falsy", False),
+                "textx_tools_support": case.get("tools", False),
+                "prior_model": render(prior_case(case))[0] if case.get("prior") else None, "impl": obs}
 
     def extra_search(self, rng, tier, broken):
         return list(self.gen(rng, 2000 if tier == "quick" else 10000, tier))
@@ -591,6 +795,8 @@ class Prop(Check):
         dist = {}
         nrefs = nprobes = 0
         verd = {"obj": 0, "builtin": 0, "unknown": 0, "notUnique": 0}
+        fverd = {"obj": 0, "builtin": 0, "unknown": 0, "notUnique": 0}
+        kinds = {}
         for c, o in zip(cases, obs):
             if not isinstance(o, dict) or "outcome" not in o:
                 continue
@@ -599,8 +805,18 @@ class Prop(Check):
             objs, refs = number(c)
             nrefs += len(refs)
             for r in refs:
-                verd[spec_verdict(c, objs, r["name"], r["t"])[0]] += 1
+                v = spec_verdict(c, objs, r["name"], r["t"])[0]
+                verd[v] += 1
+                if not r["name"]:
+                    fverd[v] += 1
+                k = ref_kind(objs[r["owner"]]["node"])
+                k = NUM_RULE[c.get("numkind", "int")] if k == "num" else k
+                kinds[k] = kinds.get(k, 0) + 1
             nprobes += len(o.get("probes", []))
         return {"distribution": dist, "references": nrefs, "reference_verdicts_by_statement": verd,
+                "references_with_falsy_name_by_verdict": fverd, "references_by_match_rule": kinds,
                 "direct_provider_calls": nprobes,
-                "user_class_cases": sum(1 for c in cases if c.get("user"))}
+                "user_class_cases": sum(1 for c in cases if c.get("user")),
+                "falsy_instance_cases": sum(1 for c in cases if c.get("falsy")),
+                "textx_tools_support_cases": sum(1 for c in cases if c.get("tools")),
+                "prior_model_cases": sum(1 for c in cases if c.get("prior"))}
